@@ -1067,7 +1067,7 @@ theorem erPrepareNext_ev (w : World) (st : St) (r : ER) : Ev st (erPrepareNext w
   · split
     · split
       · split
-        · exact Ev.refl st
+        · exact reportError_ev w st _
         · split <;> exact Ev.refl st
       · have h := copyAllLimited_ev w true (bufferedBodyLimit st.op.conf.maxMsg) st.src.fuel st 0 []
         generalize copyAllLimited w true (bufferedBodyLimit st.op.conf.maxMsg) st.src.fuel st 0 [] = rr at h ⊢
